@@ -529,4 +529,257 @@ theorem updReq_pc :
 
 end upd
 
+/-! ## the history invariant -/
+
+/-- What the monitor's entry `q` of request `r` means, after the events of `tr` and the first `n`
+observations of `tr` have been processed. -/
+structure ReqHist (tr : Trace) (n : Nat) (r : Nat) (q : MReq) : Prop where
+  kind : ∃ e, (reads tr)[r]? = some e ∧ e.isRead = true ∧ q.id = e.reqId ∧
+    q.isNotif = !e.reqId.isSome ∧ q.isCancel = (e == .readCancel)
+  okw : q.okWrites ≤ cnt tr (· == .wret (some r) .ok)
+  p1c : q.p1count ≤ cnt tr (· == .p1 r)
+  w1c : 0 < q.w1count ↔ ∃ t, arrived tr r t ∧ evAt tr t = some (.w1 r)
+  asy : q.asyncd = true ↔ ∃ t, arrived tr r t ∧ evAt tr t = some (.hasync r)
+  p2d : q.p2done = true ↔ ∃ t, arrived tr r t ∧ evAt tr t = some (.p2 r)
+  a2s : q.a2AfterShutdown = true → ∃ t, evAt tr t = some (.a2 r) ∧ (before tr t).shuttingDown = true
+  pc : q.peerCancelled = true ↔ ∃ t id, evAt tr t = some (.k1 id) ∧ indexedAt tr t id = some r
+  st : q.started = true ↔ ∃ i, i < n ∧ arrived tr r (i + 1) ∧ PTok.h r ∈ (obsAt tr i).parked
+
+/-- What the monitor's state means after the events of `tr` and its first `n` observations. -/
+structure Hist (tr : Trace) (n : Nat) (m : Mon) : Prop where
+  sent : ∀ a b, (a, b) ∈ m.sent ↔ ∃ i, evAt tr i = some (.readResp a b)
+  ncalls : m.ncalls = cnt tr (· == .ecall)
+  late : ∀ c ∈ m.startedLate, ∃ i, evAt tr i = some .ecall ∧ (before tr i).done = true ∧ c = callNoAt tr i
+  ctxd : ∀ c, c ∈ m.ctxd ↔ ∃ i, evAt tr i = some (.ectx c)
+  rx : m.rxSeen = true ↔ ∃ i, evAt tr i = some .rx
+  broken : m.brokenSeen = true ↔ ∃ i w, evAt tr i = some (.wret w .broken)
+  idx : m.idx = idxAt tr tr.length
+  nreqs : m.reqs.length = (reads tr).length
+  req : ∀ r q, m.reqs[r]? = some q → ReqHist tr n r q
+
+theorem not_arrived_of_le {tr : Trace} {x : Label × Obs} {t : Nat} (h : t ≤ tr.length) :
+    ¬ arrived (tr ++ [x]) (reads tr).length t := by
+  unfold arrived
+  rw [nreadsBefore_snoc_le h]
+  exact Nat.not_lt.mpr (nreadsBefore_le t)
+
+theorem evAt_snoc_le {tr : Trace} {x : Label × Obs} {t : Nat} {e : Ev} (h : evAt (tr ++ [x]) t = some e) :
+    t ≤ tr.length := by
+  have := evAt_some_lt h
+  simp only [List.length_append, List.length_singleton] at this
+  omega
+
+/-- A freshly read request: the new table entry. -/
+theorem reqHist_new {tr : Trace} {l : Label} {o : Obs} {q : MReq} (h : newReq (evOf l) = some q) :
+    ReqHist (tr ++ [(l, o)]) tr.length (reads tr).length q := by
+  have hr : (evOf l).isRead = true := by rw [← newReq_isSome, h]; rfl
+  have hna : ∀ {t : Nat} {e : Ev}, evAt (tr ++ [(l, o)]) t = some e → ¬ arrived (tr ++ [(l, o)]) (reads tr).length t :=
+    fun h => not_arrived_of_le (evAt_snoc_le h)
+  have hq : q.okWrites = 0 ∧ q.p1count = 0 ∧ q.w1count = 0 ∧ q.asyncd = false ∧ q.p2done = false ∧
+      q.a2AfterShutdown = false ∧ q.peerCancelled = false ∧ q.started = false ∧
+      q.id = (evOf l).reqId ∧ q.isNotif = !(evOf l).reqId.isSome ∧ q.isCancel = (evOf l == .readCancel) := by
+    generalize evOf l = e at h
+    cases e <;> simp only [newReq, Option.some.injEq, reduceCtorEq] at h <;> subst h <;> simp [Ev.reqId]
+  obtain ⟨h1, h2, h3, h4, h5, h6, h7, h8, h9, h10, h11⟩ := hq
+  refine ⟨⟨evOf l, ?_, hr, h9, h10, h11⟩, by omega, by omega, ?_, ?_, ?_, ?_, ?_, ?_⟩
+  · simp [reads_snoc, hr]
+  · rw [h3]; simp only [Nat.lt_irrefl, false_iff]; rintro ⟨t, ha, he⟩; exact hna he ha
+  · rw [h4]; simp only [Bool.false_eq_true, false_iff]; rintro ⟨t, ha, he⟩; exact hna he ha
+  · rw [h5]; simp only [Bool.false_eq_true, false_iff]; rintro ⟨t, ha, he⟩; exact hna he ha
+  · rw [h6]; intro h; cases h
+  · rw [h7]; simp only [Bool.false_eq_true, false_iff]; rintro ⟨t, id, he, hi⟩
+    exact hna he (indexedAt_arrived hi)
+  · rw [h8]; simp only [Bool.false_eq_true, false_iff]; rintro ⟨i, hi, ha, _⟩
+    exact not_arrived_of_le (show i + 1 ≤ tr.length from hi) ha
+
+/-- An existing table entry across `Mon.book`. -/
+theorem reqHist_book {tr : Trace} {l : Label} {o : Obs} {m : Mon} {r : Nat} {q : MReq}
+    (hidx : m.idx = idxAt tr tr.length) (hr : r < (reads tr).length) (h : ReqHist tr tr.length r q) :
+    ReqHist (tr ++ [(l, o)]) tr.length r (updReq m (lastObs tr) (evOf l) r q) := by
+  have hex := fun e => exists_arrived_snoc (tr := tr) (x := (l, o)) (e := e) hr
+  refine ⟨?_, ?_, ?_, ?_, ?_, ?_, ?_, ?_, ?_⟩
+  · obtain ⟨e, h1, h2, h3, h4, h5⟩ := h.kind
+    refine ⟨e, ?_, h2, ?_, ?_, ?_⟩
+    · rw [reads_snoc, List.getElem?_append_left hr]; exact h1
+    · rw [updReq_id]; exact h3
+    · rw [updReq_isNotif]; exact h4
+    · rw [updReq_isCancel]; exact h5
+  · rw [updReq_okWrites, cnt_snoc]
+    have := h.okw
+    simp only [beq_iff_eq]
+    split <;> omega
+  · rw [updReq_p1count, cnt_snoc]
+    have := h.p1c
+    simp only [beq_iff_eq]
+    split <;> omega
+  · rw [hex, ← h.w1c, updReq_w1count]
+    simp only
+    split <;> simp_all
+  · rw [hex, ← h.asy, updReq_asyncd]
+  · rw [hex, ← h.p2d, updReq_p2done]
+  · intro h'
+    rcases updReq_a2s _ _ _ _ _ h' with h' | ⟨h1, h2⟩
+    · obtain ⟨t, ht, hb⟩ := h.a2s h'
+      have hl := evAt_some_lt ht
+      exact ⟨t, by rw [evAt_snoc_lt hl]; exact ht, by rw [before_snoc_le (Nat.le_of_lt hl)]; exact hb⟩
+    · exact ⟨tr.length, by simp [h1], by simpa using h2⟩
+  · rw [updReq_pc, h.pc]
+    constructor
+    · rintro (⟨t, id, he, hi⟩ | ⟨id, he, hi⟩)
+      · have hl := evAt_some_lt he
+        exact ⟨t, id, by rw [evAt_snoc_lt hl]; exact he, by rw [indexedAt_snoc_le (Nat.le_of_lt hl)]; exact hi⟩
+      · refine ⟨tr.length, id, by simp [he], ?_⟩
+        rw [indexedAt_snoc_le (Nat.le_refl _), indexedAt, ← hidx]; exact hi
+    · rintro ⟨t, id, he, hi⟩
+      rcases evAt_snoc_some he with ⟨hl, he'⟩ | ⟨hl, he'⟩
+      · rw [indexedAt_snoc_le (Nat.le_of_lt hl)] at hi
+        exact .inl ⟨t, id, he', hi⟩
+      · subst hl
+        rw [indexedAt_snoc_le (Nat.le_refl _), indexedAt, ← hidx] at hi
+        exact .inr ⟨id, he', hi⟩
+  · rw [updReq_started, h.st]
+    constructor
+    · rintro ⟨i, hi, ha, hp⟩
+      exact ⟨i, hi, (arrived_snoc_le (show i + 1 ≤ tr.length from hi)).mpr ha, by rw [obsAt_snoc_lt hi]; exact hp⟩
+    · rintro ⟨i, hi, ha, hp⟩
+      exact ⟨i, hi, (arrived_snoc_le (show i + 1 ≤ tr.length from hi)).mp ha, by rwa [obsAt_snoc_lt hi] at hp⟩
+
+/-- A table entry across `Mon.mark`. -/
+theorem reqHist_mark {tr : Trace} {n r : Nat} {q : MReq} (ha : arrived tr r (n + 1)) (h : ReqHist tr n r q) :
+    ReqHist tr (n + 1) r (if (obsAt tr n).parked.contains (.h r) then { q with started := true } else q) := by
+  have hst : (if (obsAt tr n).parked.contains (.h r) then { q with started := true } else q).started = true ↔
+      q.started = true ∨ PTok.h r ∈ (obsAt tr n).parked := by
+    split <;> simp_all
+  have hsame : ∀ {β : Type} (f : MReq → β), (∀ q b, f { q with started := b } = f q) →
+      f (if (obsAt tr n).parked.contains (.h r) then { q with started := true } else q) = f q := by
+    intro β f hf; split
+    · exact hf _ _
+    · rfl
+  refine ⟨?_, ?_, ?_, ?_, ?_, ?_, ?_, ?_, ?_⟩
+  · rw [hsame (·.id) (fun _ _ => rfl), hsame (·.isNotif) (fun _ _ => rfl), hsame (·.isCancel) (fun _ _ => rfl)]
+    exact h.kind
+  · rw [hsame (·.okWrites) (fun _ _ => rfl)]; exact h.okw
+  · rw [hsame (·.p1count) (fun _ _ => rfl)]; exact h.p1c
+  · rw [hsame (·.w1count) (fun _ _ => rfl)]; exact h.w1c
+  · rw [hsame (·.asyncd) (fun _ _ => rfl)]; exact h.asy
+  · rw [hsame (·.p2done) (fun _ _ => rfl)]; exact h.p2d
+  · rw [hsame (·.a2AfterShutdown) (fun _ _ => rfl)]; exact h.a2s
+  · rw [hsame (·.peerCancelled) (fun _ _ => rfl)]; exact h.pc
+  · rw [hst, h.st]
+    constructor
+    · rintro (⟨i, hi, hh⟩ | hp)
+      · exact ⟨i, by omega, hh⟩
+      · exact ⟨n, by omega, ha, hp⟩
+    · rintro ⟨i, hi, ha', hp⟩
+      by_cases hin : i < n
+      · exact .inl ⟨i, hin, ha', hp⟩
+      · have : i = n := by omega
+        subst this
+        exact .inr hp
+
+/-- The monitor's table entry of request `r` carries the wire id the trace gives it. -/
+theorem Hist.reqId {tr : Trace} {n : Nat} {m : Mon} (h : Hist tr n m) (r : Nat) :
+    (m.reqs[r]?).bind (·.id) = reqIdAt tr tr.length r := by
+  simp only [reqIdAt, List.take_length]
+  cases hq : m.reqs[r]? with
+  | none =>
+    have : (reads tr).length ≤ r := by rw [← h.nreqs]; exact List.getElem?_eq_none_iff.mp hq
+    simp [List.getElem?_eq_none this]
+  | some q =>
+    obtain ⟨e, h1, _, h3, _⟩ := (h.req r q hq).kind
+    simp [h1, h3]
+
+theorem hist_book {tr : Trace} {m : Mon} (l : Label) (o : Obs) (h : Hist tr tr.length m) :
+    Hist (tr ++ [(l, o)]) tr.length (m.book (lastObs tr) (evOf l)) := by
+  refine ⟨?_, ?_, ?_, ?_, ?_, ?_, ?_, ?_, ?_⟩
+  · intro a b; rw [book_sent, exists_evAt_snoc, h.sent]
+  · rw [book_ncalls, cnt_snoc, h.ncalls]; simp
+  · intro c hc
+    rcases book_startedLate _ _ _ _ hc with hc | ⟨h1, h2, h3⟩
+    · obtain ⟨i, hi, hd, hn⟩ := h.late c hc
+      have hl := evAt_some_lt hi
+      exact ⟨i, by rw [evAt_snoc_lt hl]; exact hi, by rw [before_snoc_le (Nat.le_of_lt hl)]; exact hd,
+        by rw [callNoAt_snoc_lt hl]; exact hn⟩
+    · refine ⟨tr.length, by simp [h1], by simpa using h2, ?_⟩
+      rw [callNoAt_snoc_len, cnt_snoc, h3, h.ncalls]; simp [h1]
+  · intro c; rw [book_ctxd, exists_evAt_snoc, h.ctxd]
+  · rw [book_rxSeen, exists_evAt_snoc, h.rx]
+  · rw [book_brokenSeen, h.broken]
+    constructor
+    · rintro (⟨i, w, hi⟩ | ⟨w, hw⟩)
+      · exact ⟨i, w, by rw [evAt_snoc_lt (evAt_some_lt hi)]; exact hi⟩
+      · exact ⟨tr.length, w, by simp [hw]⟩
+    · rintro ⟨i, w, hi⟩
+      rcases evAt_snoc_some hi with ⟨_, hi'⟩ | ⟨_, hi'⟩
+      · exact .inl ⟨i, w, hi'⟩
+      · exact .inr ⟨w, hi'⟩
+  · rw [book_idx]
+    simp only [List.length_append, List.length_singleton, idxAt, evAt_snoc_len,
+      idxAt_snoc_le (Nat.le_refl tr.length), reqIdAt_snoc_le (Nat.le_refl tr.length), ← h.idx, ← h.reqId]
+    cases evOf l <;> rfl
+  · rw [book_reqs_length, reads_snoc, List.length_append, h.nreqs]
+    split <;> rfl
+  · intro r q hq
+    rw [book_reqs_get] at hq
+    split at hq
+    · rename_i hr
+      rw [hr, h.nreqs]
+      exact reqHist_new hq
+    · cases hq0 : m.reqs[r]? with
+      | none => simp [hq0] at hq
+      | some q0 =>
+        simp only [hq0, Option.map_some, Option.some.injEq] at hq
+        subst hq
+        have hr : r < (reads tr).length := by rw [← h.nreqs]; exact (List.getElem?_eq_some_iff.mp hq0).1
+        exact reqHist_book h.idx hr (h.req r q0 hq0)
+
+theorem hist_mark {tr : Trace} {n : Nat} {m : Mon} (hn : tr.length ≤ n + 1) (h : Hist tr n m) :
+    Hist tr (n + 1) { m.mark (obsAt tr n) with prev := obsAt tr n } := by
+  refine ⟨h.sent, h.ncalls, h.late, h.ctxd, h.rx, h.broken, h.idx, ?_, ?_⟩
+  · simp [Mon.mark, h.nreqs]
+  · intro r q hq
+    simp only [mark_get] at hq
+    cases hq0 : m.reqs[r]? with
+    | none => simp [hq0] at hq
+    | some q0 =>
+      simp only [hq0, Option.map_some, Option.some.injEq] at hq
+      subst hq
+      have hr : r < (reads tr).length := by rw [← h.nreqs]; exact (List.getElem?_eq_some_iff.mp hq0).1
+      refine reqHist_mark ?_ (h.req r q0 hq0)
+      unfold arrived
+      rwa [nreadsBefore_ge hn]
+
+theorem hist_nil : Hist [] 0 {} := by
+  refine ⟨?_, rfl, ?_, ?_, ?_, ?_, rfl, rfl, ?_⟩ <;> simp [evAt]
+
+/-- The monitor after one more step. -/
+theorem monStepT_fst (m : Mon) (l : Label) (o : Obs) :
+    (monStepT m l o).1 = { (m.book m.prev (evOf l)).mark o with prev := o } := rfl
+
+theorem monStepT_snd (m : Mon) (l : Label) (o : Obs) :
+    (monStepT m l o).2 = chkAll (m.book m.prev (evOf l)) m.prev o (evOf l) := rfl
+
+/-- THE HISTORY INVARIANT: the monitor's state after `tr` is the history of `tr`. -/
+theorem hist_after : ∀ tr : Trace, Hist tr tr.length (monAfter {} tr) ∧ (monAfter {} tr).prev = lastObs tr := by
+  intro tr
+  induction tr using snoc_induction with
+  | nil => exact ⟨hist_nil, rfl⟩
+  | snoc tr x ih =>
+    obtain ⟨l, o⟩ := x
+    obtain ⟨ih, hp⟩ := ih
+    rw [monAfter_snoc, monStepT_fst, hp]
+    refine ⟨?_, by simp⟩
+    have hb := hist_book l o ih
+    have := hist_mark (tr := tr ++ [(l, o)]) (n := tr.length) (by simp) hb
+    simpa using this
+
+/-- What the checks see when the monitor takes the step that extends `tr` by `(l, o)`: the booked
+history (all events of the extended trace, the observations of `tr`). -/
+theorem hist_booked (tr : Trace) (l : Label) (o : Obs) :
+    Hist (tr ++ [(l, o)]) tr.length ((monAfter {} tr).book (lastObs tr) (evOf l)) ∧
+    (monStepT (monAfter {} tr) l o).2 =
+      chkAll ((monAfter {} tr).book (lastObs tr) (evOf l)) (lastObs tr) o (evOf l) := by
+  obtain ⟨ih, hp⟩ := hist_after tr
+  exact ⟨hist_book l o ih, by rw [monStepT_snd, hp]⟩
+
 end Conn
